@@ -15,6 +15,10 @@ THEOREMS = [
     "VK.C12_add_missing",
     "VK.C12_expand_count",
     "VK.C12_expand_total",
+    "VK.mem_perms_iff",
+    "VK.perms_nodup",
+    "VK.mem_linearise_iff",
+    "VK.linearise_nodup",
 ]
 RULE = ("cases = utility in {remove_cand on profile / ballot tuple / single ballot x condense x "
         "leave_zero_weight_ballots, add_missing_cands, expand_tied_ballot, resolve_profile_ties, "
